@@ -122,6 +122,12 @@ func c11Run(c *h.Ctx) {
 			c11Reopen(c, id, c.Rng(id))
 		}
 	}
+	for k := 0; k < c.Pick(2, 10); k++ {
+		id := fmt.Sprintf("listen%d", k)
+		if c.Case(id) {
+			c11Listener(c, id, c.Rng(id))
+		}
+	}
 	for k := 0; k < c.Pick(1, 6); k++ {
 		id := fmt.Sprintf("udp%d", k)
 		if c.Case(id) {
@@ -1214,9 +1220,8 @@ func c11LinkFragments(c *h.Ctx, id string, r *rand.Rand) {
 	}
 	c.Eval(1)
 	var delivered [][]byte
-	for _, t := range rts {
-		_, d := t.Take()
-		for _, p := range d {
+	for _, p := range fwenv.TakeAll(rts) {
+		if p.L3.Data != nil {
 			delivered = append(delivered, p.Raw)
 		}
 	}
